@@ -302,7 +302,14 @@ impl Hist {
         let s = st.tick_spacing;
         let si = s as i32;
         if s >= codec::FULL_RANGE_ONLY_TICK_SPACING_THRESHOLD {
-            return if rnd::chance(&mut w.r, 9, 10) { full_range(s) } else { (0, si) };
+            // mostly the only admissible range; otherwise ranges that miss both bounds or keep exactly one of them
+            let (fl, fu) = full_range(s);
+            return match w.r.gen_range(0..10) {
+                0 => (0, si),
+                1 => (fl, *rnd::pick(&mut w.r, &[0, si, -si, fu - si])),
+                2 => (*rnd::pick(&mut w.r, &[0, si, -si, fl + si]), fu),
+                _ => (fl, fu),
+            };
         }
         let tc = st.tick_current_index;
         let others: Vec<(i32, i32)> = w.positions.iter().filter(|q| q.pool == p && !q.closed).map(|q| (q.lower, q.upper)).collect();
